@@ -1588,7 +1588,7 @@ Proof.
   - eexists; split; reflexivity.
   - eexists; split; reflexivity.
   - destruct a as [l j|n|l f c s al|m j al|s j]; simpl in *.
-    + rewrite H. eexists; split; [reflexivity|]. destruct (Nat.eqb i j); reflexivity.
+    + rewrite H. eexists; split; [reflexivity|]. destruct (Nat.eqb i j && Nat.ltb j 3); reflexivity.
     + eexists; split; reflexivity.
     + rewrite H. eexists; split; [reflexivity|]. simpl. rewrite Bool.eqb_reflx. apply orb_true_r.
     + rewrite H. eexists; split; [reflexivity|]. reflexivity.
@@ -2326,7 +2326,7 @@ Proof.
   - inversion E. reflexivity.
   - destruct a; simpl in E;
       repeat match goal with H : (if ?c then _ else _) = Some _ |- _ => destruct c; try discriminate end;
-      inversion E; try reflexivity. destruct (Nat.eqb i i0); reflexivity.
+      inversion E; try reflexivity. destruct (Nat.eqb i i0 && Nat.ltb i0 3)%nat; reflexivity.
   - apply andb_true_iff in H. destruct H as [H1 H2].
     destruct (tD lg i t1) eqn:E1; [|discriminate]. destruct (tD lg i t2) eqn:E2; [|discriminate]. inversion E.
     simpl. now rewrite (IHt1 _ H1 eq_refl), (IHt2 _ H2 eq_refl).
